@@ -157,8 +157,11 @@ def run(tier, seed):
             s = try_(lambda: w.simplify())
             if s[0] == "ok":
                 sv = s[1]
-                cf, cu = sv.as_coeff_unit()
                 ok = sv.dimensions == u.dimensions and math.isclose(sv.base_value, u.base_value, rel_tol=1e-12)
+                try:
+                    cf, cu = sv.as_coeff_unit()
+                except Exception:  # noqa: BLE001  (as_coeff_unit raising on a simplified unit is itself a failure)
+                    cf, cu, ok = 0.0, u, False
                 # the simplified expression must denote the same scale when rebuilt from scratch
                 try:
                     rebuilt = Unit(sv.expr, registry=u.registry)
